@@ -15,6 +15,11 @@ import (
 
 func checkC12(ci any, info *CaseInfo) string {
 	c := ci.(*GoCase)
+	if len(c.Note) > 9 && c.Note[:9] == "scenario:" {
+		info.Class("scenario")
+		info.NonTrivial = true
+		return foldScenario(c.Note[9:])
+	}
 	typ, rv, err := c.build()
 	if err != nil {
 		return err.Error()
@@ -22,8 +27,15 @@ func checkC12(ci any, info *CaseInfo) string {
 	typeClasses(typ, info, 0, map[string]bool{})
 	exp, merr := gomodel.FoldModel(rv)
 	rec := &model.Recorder{}
-	o := foldTo(rv, rec)
+	var o Outcome
 	desc := describeGo(c, rv)
+	if c.PreFail > 0 {
+		info.Class("after_failed_fold")
+		o = foldAfterFailure(rv, rec, c.PreFail-1)
+		desc += fmt.Sprintf(" (second fold of one iterator; the visitor failed at event #%d of the first)", c.PreFail-1)
+	} else {
+		o = foldTo(rv, rec)
+	}
 	if o.Panicked() {
 		return fmt.Sprintf("Fold panics for %s: %v\n%s", desc, o.Panic, o.Stack)
 	}
@@ -54,12 +66,28 @@ func checkC12(ci any, info *CaseInfo) string {
 
 func init() {
 	register(&Property{
-		Enum: enumFoldPoolShapes(func(g *GoCase) any { return g }),
+		Enum: func(emit func(c any) bool) {
+			enumFoldPoolShapes(func(g *GoCase) any { return g })(emit)
+			for _, sc := range foldScenarios {
+				if !emit(&GoCase{Type: gomodel.TypeDesc{Kind: "int"}, Note: "scenario:" + sc}) {
+					return
+				}
+			}
+			// the same shapes folded after a fold of the same iterator that failed at event 1, 2, 3
+			for k := 2; k <= 4; k++ {
+				k := k
+				enumFoldPoolShapes(func(g *GoCase) any { c := *g; c.PreFail = k; return &c })(emit)
+			}
+		},
 		ID:   "C12",
-		Rule: "rapid draws a Go type description (all scalar kinds, slices, string maps, pointers depth 0..3, interfaces, nested structs with tags drawn from {none, name, name+omitempty, omitempty, -, omit, inline/squash, padded, illegal combinations}, blanks around tag names and options; pool types incl. Folder/IsZeroer (structs and named int/float/bool/uint8 whose IsZero is not the Go zero test, value and pointer receivers)/registered folders/embedded/named types, unsupported kinds) materialised with reflect.StructOf, and a value of it (nil/empty/non-empty nillables, interfaces holding generic data, structs, pointers, structs that inline an interface again); deterministic part: every custom-folder pool type in every position, and an omitempty matrix (6 IsZeroer types x IsZero true/false x {value, pointer, pointer to pointer, interface holding value / pointer} x 3 tags); oracle = independent executable model of the documented tag rules (gomodel.FoldModel) compared at value level; refusal cases must be errors; non-trivial = the type has at least one tag option or the case is a refusal; distinct by case hash",
+		Rule: "rapid draws a Go type description (all scalar kinds, slices, string maps, pointers depth 0..3, interfaces, nested structs with tags drawn from {none, name, name+omitempty, omitempty, -, omit, inline/squash, padded, illegal combinations}, blanks around tag names and options; pool types incl. Folder/IsZeroer (structs and named int/float/bool/uint8 whose IsZero is not the Go zero test, value and pointer receivers)/registered folders/embedded/named types, unsupported kinds) materialised with reflect.StructOf, and a value of it (nil/empty/non-empty nillables, interfaces holding generic data, structs, pointers, structs that inline an interface again); 1 in 4 values is folded twice by one iterator, the visitor failing at a drawn event of the first fold, and the second fold is judged; deterministic part: every custom-folder pool type in every position (also after a fold that failed at event 1, 2, 3), two hand-written scenarios (an invalid option must not yield silent success; a type refused by an iterator and a type referring to it), and an omitempty matrix (6 IsZeroer types x IsZero true/false x {value, pointer, pointer to pointer, interface holding value / pointer} x 3 tags); oracle = independent executable model of the documented tag rules (gomodel.FoldModel) compared at value level; refusal cases must be errors; non-trivial = the type has at least one tag option or the case is a refusal; distinct by case hash",
 		New:  func() any { return &GoCase{} },
 		Draw: func(t *rapid.T) any {
-			return drawGoCase(t, gomodel.TypeCfg{Tags: true, Bad: rapid.IntRange(0, 5).Draw(t, "bad") == 5, Pool: true, FoldOnly: true, Arrays: true, Recursive: !genExcludedRecursive()}, gomodel.ValCfg{})
+			g := drawGoCase(t, gomodel.TypeCfg{Tags: true, Bad: rapid.IntRange(0, 5).Draw(t, "bad") == 5, Pool: true, FoldOnly: true, Arrays: true, Recursive: !genExcludedRecursive()}, gomodel.ValCfg{})
+			if rapid.IntRange(0, 3).Draw(t, "prefail") == 0 {
+				g.PreFail = 1 + rapid.IntRange(0, 12).Draw(t, "prefailat")
+			}
+			return g
 		},
 		Check:         checkC12,
 		AlwaysCurCase: true,
